@@ -623,6 +623,61 @@ def r1_5b(ctx):
     ctx.floor("R1.5b", n, 3, "places that raise `idling`")
 
 
+# loops over a shared container that may suspend and still iterate the live object, with the reason it is safe
+LIVE_ITERATION_OK = {
+    ("user_server.IMAPClientProxy.close", "clients"): "the loop leaves (`break`) right after its only await",
+    ("pop3_client.POP3ClientProxy.close", "clients"): "the loop leaves (`break`) right after its only await",
+    ("mbox.Mailbox._restore_from_db", "sequences"): "runs while the mailbox object is being built, before it is registered or has a management task",
+}
+
+
+def r1_8(ctx):
+    """Notifications are fanned out to the sessions of a mailbox by a loop that awaits (a push to an idling session suspends
+    on a slow client).  At every suspension point other tasks run: sessions select and unselect the mailbox, i.e. insert into
+    and delete from the very table the loop iterates.  A dict that changes size under its iterator raises RuntimeError at the
+    next step - the rest of the sessions never get the EXPUNGE / EXISTS, and the command that was announcing dies half way.
+    So: a loop whose body can suspend iterates a *copy* (list(...), tuple(...), sorted(...)) of any attribute container that
+    some other function of the package inserts into or deletes from."""
+    p = ctx.p
+    mutators: dict[str, set[str]] = {}
+    for fi in p.functions.values():
+        for n in ast.walk(fi.node):
+            t = None
+            if isinstance(n, ast.Subscript) and isinstance(n.ctx, (ast.Store, ast.Del)) and isinstance(n.value, ast.Attribute):
+                t = n.value.attr
+            elif isinstance(n, ast.Call) and isinstance(n.func, ast.Attribute) and n.func.attr in ("pop", "popitem", "remove", "discard", "clear", "add", "append", "insert", "extend", "update", "setdefault") and isinstance(n.func.value, ast.Attribute):
+                t = n.func.value.attr
+            if t:
+                mutators.setdefault(t, set()).add(fi.key)
+    n_loops = 0
+    for fi in p.functions.values():
+        for lp in [x for x in body_walk(fi.node) if isinstance(x, (ast.For, ast.AsyncFor))]:
+            it = lp.iter
+            base = it.func.value if isinstance(it, ast.Call) and isinstance(it.func, ast.Attribute) and it.func.attr in ("values", "items", "keys") and not it.args else it
+            if not (isinstance(base, ast.Attribute) and base.attr in mutators):
+                continue
+            if not any(isinstance(x, (ast.Await, ast.AsyncFor, ast.AsyncWith)) for s in lp.body for x in ast.walk(s)):
+                continue
+            others = sorted(mutators[base.attr] - {fi.key})
+            if not others:
+                continue
+            n_loops += 1
+            ctx.analysed(fi)
+            why = LIVE_ITERATION_OK.get((fi.key, base.attr))
+            if why:
+                ctx.ok("R1.8", where(fi), f"live iteration of {norm(it, 50)} across an await: {why}", nontrivial=False)
+            else:
+                ctx.bad("R1.8", fi.module, fi.qual, f"for ... in {norm(it, 60)}: ... await ...", f"the loop suspends while iterating the live `{base.attr}` table, which {others[0].split('.', 1)[1]} (and {len(others) - 1} more) change: a session that selects or leaves during the suspension makes the next step raise `dictionary changed size during iteration` - the remaining sessions never get this EXPUNGE / EXISTS and the announcing command fails half way", lp.lineno)
+    # the fan-outs themselves iterate a copy
+    for key in ("mbox.Mailbox._dispatch_or_pend_notifications", "mbox.Mailbox.check_new_msgs_and_flags"):
+        fi = p.func(key)
+        loops = [x for x in body_walk(fi.node) if isinstance(x, ast.For) and "self.clients" in norm(x.iter)]
+        ctx.floor("R1.8", len(loops), 1, f"fan-out loops over self.clients in {fi.name}")
+        for lp in loops:
+            if isinstance(lp.iter, ast.Call) and isinstance(lp.iter.func, ast.Name) and lp.iter.func.id in ("list", "tuple", "sorted"):
+                ctx.ok("R1.8", where(fi), f"fan-out iterates a copy: {norm(lp.iter, 60)}")
+
+
 def r1_6(ctx):
     """SELECT / EXAMINE give the session a fresh view (EXISTS from the current state).  Whatever was queued for the old view
     must be dropped before that, unconditionally - also when the same mailbox is selected again: a queued EXPUNGE replayed onto
@@ -713,6 +768,7 @@ def run(ctx):
     ctx.do(r1_6)
     ctx.do(r1_6b)
     ctx.do(r1_7)
+    ctx.do(r1_8)
     from . import c02
     ctx.do(c02.r2_6)
     # shared necessary conditions decided by sibling modules (reported under this property too)
